@@ -9,7 +9,7 @@ EXTENDS Integers, FiniteSets, TLC
 
 CONSTANTS Dev
 
-Decoders == {"ss-legacy-req", "ss2022-req", "ss2022-udp-c2s", "ss2022-udp-s2c", "ss-legacy-udp",
+Decoders == {"ss-legacy-req", "ss2022-req", "ss2022-resp", "ss2022-udp-c2s", "ss2022-udp-s2c", "ss-legacy-udp",
              "vmess-req-header", "vmess-req-body", "vmess-resp-header", "vmess-resp-body", "trojan-req", "trojan-udp-c2s", "trojan-udp-s2c", "socks5-udp-local"}
 
 Classes == {"BadAddrType",           \* address type byte not one of the protocol's three
@@ -23,6 +23,7 @@ Classes == {"BadAddrType",           \* address type byte not one of the protoco
             "NonUtf8Domain",         \* domain bytes that are not UTF-8
             "ChunkShorterThanPadding", \* VMess body chunk: declared length smaller than the padding drawn for it (+ tag)
             "ChunkShorterThanTag",   \* VMess body chunk: declared length smaller than an authentication tag
+            "ExtremeTimestamp",      \* Shadowsocks 2022: a well-sealed header whose 64-bit timestamp is 0, 2^63 - 1, 2^63 or 2^64 - 1
             "UnusualOptions"}        \* VMess request header, well formed, with an option mask / security code the real client never
                                      \* sends (no option at all, unknown bits, unknown cipher code): the server may serve or refuse
                                      \* it, and writing its first answer for such a request is part of handling it
@@ -33,6 +34,8 @@ HasLen(d)     == d \in {"trojan-udp-c2s", "trojan-udp-s2c"}
 IsBody(d) == d \in {"vmess-req-body", "vmess-resp-body"}
 Applies(d, c) == /\ (IsBody(d) <=> c \in {"ChunkShorterThanPadding", "ChunkShorterThanTag"})
                  /\ (c = "UnusualOptions" => d = "vmess-req-header")
+                 /\ (c = "ExtremeTimestamp" <=> d \in {"ss2022-req", "ss2022-resp", "ss2022-udp-c2s", "ss2022-udp-s2c"} /\ c = "ExtremeTimestamp")
+                 /\ (d = "ss2022-resp" => c = "ExtremeTimestamp")
                  \* the response header is one sealed unit of four fixed bytes: it can only be too short
                  /\ (d = "vmess-resp-header" => c \in {"Empty", "ShorterThanFixed"})
                  \* the real client always asks for authenticated lengths, which count the bytes before the tag
